@@ -6,7 +6,7 @@ use crate::shape::*;
 pub const SHORTS: &[char] = &['a', 'b', 'c', 'd', 'e', 'f', 'g', 'v', 'x', 'é', 'Z', '1'];
 pub const LONGS: &[S] = &[
     "alpha", "beta", "gamma", "delta", "epsilon", "verbose", "file", "al", "alphabet", "é-long",
-    "x-y", "num",
+    "x-y", "num", "target-directory", "a-rather-long-option-name-that-goes-on", "alpha-beta",
 ];
 pub const ENVS: &[S] = &[
     "BPAF_V_A", "BPAF_V_B", "BPAF_V_C", "BPAF_V_D", "BPAF_V_E", "BPAF_V_F",
@@ -43,7 +43,9 @@ fn compute_env_names() -> Vec<&'static str> {
     v.dedup();
     v
 }
-pub const METAVARS: &[S] = &["A", "FILE", "N", "VAL", "X-Y", "É"];
+pub const METAVARS: &[S] = &[
+    "A", "FILE", "N", "VAL", "X-Y", "É", "DIRECTORY", "A_LONG_METAVAR_NAME",
+];
 pub const CMDS: &[S] = &["cmd", "sub", "run", "x", "alpha", "é"];
 pub const TEXTS: &[S] = &[
     "short help",
@@ -54,6 +56,15 @@ pub const TEXTS: &[S] = &[
     "unicode: é 世界 😀",
     "tab\there",
     "`code` and *stars* and <angle> & amp",
+    "\nstarts with an empty line",
+    "\n",
+    "\r\nCRLF first\r\nand second",
+    "intro\n\n```\nfenced code\n\nafter an empty line\n```\nouter text",
+    "para\n\n    indented code\n    \n    after four blanks\n\nback",
+    "# heading-like\n> quote-like\n- list-like\n.dot-first 'quote-first \\backslash",
+    "   ",
+    "averyveryveryveryveryveryveryveryveryveryveryveryveryveryveryveryveryveryveryveryveryveryveryveryverylongwordwithoutanybreakinit-and-it-goes-on-and-on",
+    "trailing blank \n\n\n",
 ];
 pub const MSGS: &[S] = &[
     "must be valid",
@@ -77,6 +88,9 @@ pub struct Swarm {
     pub docs: bool,
     pub unicode: bool,
     pub positionals: bool,
+    /// parsers with `max_width` other than the default (never in C11, whose prediction renders
+    /// at the default width)
+    pub widths: bool,
     pub max_depth: usize,
 }
 
@@ -93,6 +107,7 @@ impl Swarm {
             docs: r.chance(2, 3),
             unicode: r.chance(1, 3),
             positionals: r.chance(3, 4),
+            widths: r.chance(1, 2),
             max_depth: r.range(1, 4),
         }
     }
@@ -108,6 +123,7 @@ impl Swarm {
             docs: true,
             unicode: true,
             positionals: true,
+            widths: true,
             max_depth: 4,
         }
     }
@@ -591,6 +607,9 @@ impl<'a> Gen<'a> {
         o.fallback_to_usage = self.r.chance(1, 6);
         if self.r.chance(1, 16) {
             o.cargo = Some(*self.r.pick(&["cmd", "tool"][..]));
+        }
+        if self.sw.widths && self.r.chance(1, 3) {
+            o.max_width = Some(*self.r.pick(&[20usize, 40, 60, 99, 120, 1000][..]));
         }
         o
     }
